@@ -274,7 +274,7 @@ class PiecewiseEstimator(BaseEstimator):
             self.classes_ = self.estimators_[0].classes_
         return self
 
-    def _apply_predict_method(self, X, method, parallelized, dimout):
+    def _apply_predict_method(self, X, method, parallelized, dimout, dtype=None):
         """
         Generic *predict* method, works for *predict_proba* and
         *decision_function* as well.
@@ -296,7 +296,9 @@ class PiecewiseEstimator(BaseEstimator):
             for i, model in enumerate(self.estimators_)
         )
 
-        pred = numpy.zeros((X.shape[0], dimout) if dimout > 1 else (X.shape[0],))
+        pred = numpy.zeros(
+            (X.shape[0], dimout) if dimout > 1 else (X.shape[0],), dtype=dtype
+        )
         indall = numpy.empty((X.shape[0],))
         indall[:] = False
         for ind, p in indpred:
@@ -417,8 +419,9 @@ class PiecewiseClassifier(PiecewiseEstimator, ClassifierMixin):
         :param X: features, *X* is converted into an array if *X* is a dataframe
         :return: predictions
         """
-        pred = self._apply_predict_method(X, "predict", _predict_piecewise_estimator, 1)
-        return pred.astype(numpy.int32)
+        return self._apply_predict_method(
+            X, "predict", _predict_piecewise_estimator, 1, dtype=self.classes_.dtype
+        )
 
     def predict_proba(self, X):
         """
